@@ -38,6 +38,18 @@ CLAIMS["C14"] = (
     "DESIGN.md section 5 C14",
 )
 
+CLAIMS["C05"] = (
+    "interprocedural MUST dataflow (validated-not-closed fact, summaries by fixpoint over the resolved call graph) on a statement CFG; who-may-write sweep; symbolic evaluation of the derived flags; guard extraction",
+    "Decides statically under the asyncio execution model M1-M5: single writer of the lifecycle attributes (R1); derived flags equal "
+    "their specification for all five states (R2); every non-CLOSED state write is constant, lies behind a raise-unless-state-is-P entry "
+    "guard with P strictly earlier, and every exit of a guarded phase advanced the state or passed the closer, so a phase cannot run twice "
+    "(R3); at every non-CLOSED state write the connection is known not to be CLOSED since the last primitive suspension point or call "
+    "that may close and return (R4) - this enumerates suspension points rather than schedules and so covers same-loop-turn interleavings; "
+    "the closer is idempotent and sets CLOSED before anything that can re-enter (R5). Under M1-M5 this clause set is equivalent to the "
+    "safety statement of the property.",
+    "DESIGN.md section 5 C05",
+)
+
 UNDER_CONSTRUCTION = "rule set not built yet in this round (see DESIGN.md section 5 for the planned static rules)"
 
 NOT_APPLICABLE = {}
